@@ -23,10 +23,11 @@ Definition op_effects (w : wallet) (o : op) : list (eff * wallet) :=
   match o with
   | OpReceive s a t d c =>
     match receive w s a t d c with
-    | (w', Ok _) | (w', Err ECrypto) =>
+    | (w', Ok _) =>
       let '(w1, _) := next_child w in
-      (* key-index bump; output + log entry; (only on success) the entry's final excess *)
-      [(ECommit, w1); (ECommit, w')] ++ (if c then [(ECommit, w')] else [])
+      (* key-index bump; then — once the slate's signature data is accepted — output + log entry *)
+      [(ECommit, w1); (ECommit, w')]
+    | (w', Err ECrypto) => [(ECommit, w')]          (* the key-index bump only *)
     | _ => []
     end
   | OpLock s t tip h =>
